@@ -63,6 +63,10 @@ func (s *Scenario) body() string {
 				sb.WriteString(`<ds:Signature><ds:SignedInfo/><ds:SignatureValue>Zm9yZ2Vk</ds:SignatureValue></ds:Signature>`)
 			case "fake-foreign-cert":
 				fmt.Fprintf(&sb, `<ds:Signature><ds:SignedInfo/><ds:SignatureValue>Zm9yZ2Vk</ds:SignatureValue><ds:KeyInfo><ds:X509Data><ds:X509Certificate>%s</ds:X509Certificate></ds:X509Data></ds:KeyInfo></ds:Signature>`, other.CertB64())
+			case "blank-value":
+				sb.WriteString(`<ds:Signature><ds:SignedInfo/><ds:SignatureValue> </ds:SignatureValue></ds:Signature>`)
+			case "blank-value-lines":
+				sb.WriteString("<ds:Signature><ds:SignedInfo/><ds:SignatureValue>\n    \t\n  </ds:SignatureValue></ds:Signature>")
 			case "empty-value":
 				fmt.Fprintf(&sb, `<ds:Signature><ds:SignedInfo/><ds:SignatureValue></ds:SignatureValue><ds:KeyInfo><ds:X509Data><ds:X509Certificate>%s</ds:X509Certificate></ds:X509Data></ds:KeyInfo></ds:Signature>`, sp.CertB64())
 			}
@@ -223,6 +227,8 @@ func Run(dir, tier string, seed int64) error {
 		func(s *Scenario) { s.Mut = "sig-fake-nokeyinfo"; s.Sig = "fake-nokeyinfo" },
 		func(s *Scenario) { s.Mut = "sig-fake-foreign-cert"; s.Sig = "fake-foreign-cert" },
 		func(s *Scenario) { s.Mut = "sig-empty-value"; s.Sig = "empty-value" },
+		func(s *Scenario) { s.Mut = "sig-blank-value"; s.Sig = "blank-value" },
+		func(s *Scenario) { s.Mut = "sig-blank-value-lines"; s.Sig = "blank-value-lines" },
 		func(s *Scenario) {
 			s.Mut = "fault-lookup"
 			s.Fault = &idp.Fault{Op: "GetEntityByID", Nth: 1, Kind: "error"}
